@@ -114,43 +114,48 @@ def _rat(v):
 
 
 def run_pow(facts):
-    """Summary of eval::pow(span, base, pow).  Its counting loop is summarised inductively: from the loop head with the
-    accumulator ACC and the counter CNT arbitrary, one turn either leaves (CNT = 0, ACC unchanged) or continues with
-    ACC * X for a loop-invariant X and CNT - s where s = 1 on a non-negative counter (a magnitude) or s = signum(counter
-    at entry); hence the loop computes ACC0 * X^|CNT0| and leaves CNT = 0.  Returns (dom, body, outcomes, info or None, reason)."""
-    from ..absint import evalterm
+    """Summary of eval::pow(span, base, pow).  Its counting loop - in eval::pow itself or in a helper only it uses - is
+    summarised inductively: from the loop head with the accumulator ACC and the counter CNT arbitrary, one turn either
+    leaves (CNT = 0, ACC unchanged) or continues with ACC * X for a loop-invariant X and CNT - s where s = 1 on a
+    non-negative counter (a magnitude) or s = signum(counter at entry); hence the loop computes ACC0 * X^|CNT0| and leaves
+    CNT = 0.  Returns (dom, body, outcomes, info or None, reason)."""
+    from ..absint import induct
+    from ..callgraph import CallGraph
     from fractions import Fraction
     body = facts.fn("eval::pow")
-    heads = loops.loop_heads(body)
-    dom = OpsDomain(facts)
-    it = core.Interp(facts, dom, budget=200000)
+    cg = CallGraph(facts)
+    # helpers only eval::pow uses, minus what the domain summarises by contract (the unit operations)
+    own = {p for p in cg.exclusive("eval::pow") if not p.startswith("compound::Compound::")}
+    ind = induct.Induct(facts, body, lambda: OpsDomain(facts), budget=200000, exclude=[p for p in cg.local if p not in own])
     args = [Sym("span"), numeric("base"), numeric("pow")]
-    if len(heads) != 1:
-        return dom, body, None, None, "eval::pow has %d loops; the product loop cannot be singled out" % len(heads)
-    H = heads[0]
-    vs = loops.variant_locals(body, H)
-    acc_l = [l for l in vs if "rational::Rational" in body.local_ty(l) or "Ratio<" in body.local_ty(l)]
-    cnt_l = [l for l in vs if "BigInt" in body.local_ty(l) or "BigUint" in body.local_ty(l)]
-    if len(acc_l) != 1 or len(cnt_l) != 1:
-        return dom, body, None, None, "loop state of eval::pow: accumulators %s, counters %s (one of each expected)" % (acc_l, cnt_l)
-    A, C = acc_l[0], cnt_l[0]
-    frame = 1
-    outs = it.run(body, args, {}, stop={H})
+    loops_ = ind.all_loops()
+    if len(loops_) != 1:
+        ind._fresh()
+        return ind.dom, body, None, None, "eval::pow and its own helpers have %d loops; the product loop cannot be singled out" % len(loops_)
+    segs = ind.from_entry(args)
     final = []
     ACC, CNT = Sym("ACC"), Sym("CNT")
-    GRID = [{"ACC": Fraction(a), "CNT": Fraction(c), "X": Fraction(x)} for a in (1, Fraction(3, 2)) for c in (-3, -1, 1, 2, 5) for x in (Fraction(2), Fraction(-1, 3))]
-    info = {"head": H, "acc": A, "c": C, "states": 0}
-    for o in outs:
-        if o.kind != "stop":
-            final.append(o)
+    info = {"head": loops_[0], "states": 0}
+    for sg in segs:
+        if sg.kind != "stop":
+            final.append(sg.o)
             continue
         info["states"] += 1
-        st = o.store
+        vs = ind.variant(sg)
+        acc_l = [l for l, ty in vs.items() if "rational::Rational" in ty or "Ratio<" in ty]
+        cnt_l = [l for l, ty in vs.items() if "BigInt" in ty or "BigUint" in ty]
+        if len(acc_l) != 1 or len(cnt_l) != 1:
+            return ind.dom, body, None, None, "loop state of eval::pow: accumulators %s, counters %s (one of each expected)" % (acc_l, cnt_l)
+        A, C = acc_l[0], cnt_l[0]
+        frame = sg.frame
+        it = ind.it
+        st = sg.store
         acc0 = _rat(it.read_ref(st, Ref(frame, A)))
         c0 = it.read_ref(st, Ref(frame, C))
         st1 = it.write_ref(st, Ref(frame, A), Agg("adt", "rational::Rational", 0, "Rational", (ACC,)))
         st1 = it.write_ref(st1, Ref(frame, C), CNT)
-        turn = it.run(body, args, {}, start=(H, st1), stop={H})
+        turn = ind.turn(sg, st1)
+        dom, it = ind.dom, ind.it
         back = [t for t in turn if t.kind == "stop"]
         if len(back) != 1:
             return dom, body, None, None, "one turn of eval::pow's loop returns to its head on %d path(s)" % len(back)
@@ -168,7 +173,6 @@ def run_pow(facts):
         if isinstance(c1, T) and c1.op == "-" and c1.args[0] == CNT:
             step = c1.args[1]
         nonneg = isinstance(c0, T) and c0.op == "abs"
-        sg = lambda x: (x > 0) - (x < 0)
         okstep = False
         if step is not None:
             k = step.v if isinstance(step, (K,)) else (Fraction(step.v) if isinstance(step, Const) and isinstance(step.v, int) else None)
@@ -188,6 +192,10 @@ def run_pow(facts):
         closed = T("*", acc0, T("pow", X, T("abs", c0)))
         st2 = it.write_ref(st, Ref(frame, A), Agg("adt", "rational::Rational", 0, "Rational", (closed,)))
         st2 = it.write_ref(st2, Ref(frame, C), K(0))
-        for o2 in it.run(body, args, {}, start=(H, st2)):
-            final.append(o2)
-    return dom, body, final, info, None
+        for t in ind.turn(sg, st2):
+            if t.kind == "stop":
+                return ind.dom, body, None, None, "with the counter at zero the loop of eval::pow is entered again"
+            final.append(t.o)
+    if ind.dom is None:
+        ind._fresh()
+    return ind.dom, body, final, info, None
